@@ -1,5 +1,26 @@
-"""Interface facts of the installed CasADi (run under /venv/bin/python by the check): which names exist on MX, and which functions the casadi module itself offers."""
+"""Interface facts of the installed CasADi (run under /venv/bin/python by the check): which names exist on MX,
+which functions the casadi module itself offers, the operation codes (OP_*), and which of them are produced by
+one-operand elementary operations (found by applying each operation to a symbol and reading .op() back)."""
 import json, sys
 import casadi as ca
 x = ca.MX.sym("x")
-print(json.dumps({"casadi_version": ca.__version__, "mx_attributes": sorted(n for n in dir(x)), "module_functions": sorted(n for n in dir(ca) if not n.startswith("_") and callable(getattr(ca, n)) and not isinstance(getattr(ca, n), type))}))
+codes = {n: int(getattr(ca, n)) for n in dir(ca) if n.startswith("OP_") and isinstance(getattr(ca, n), int)}
+by_code = {v: k for k, v in codes.items()}
+unary = {}
+probes = {"sin": ca.sin, "cos": ca.cos, "tan": ca.tan, "asin": ca.asin, "acos": ca.acos, "atan": ca.atan, "sinh": ca.sinh, "cosh": ca.cosh,
+          "tanh": ca.tanh, "asinh": ca.asinh, "acosh": ca.acosh, "atanh": ca.atanh, "exp": ca.exp, "log": ca.log, "sqrt": ca.sqrt,
+          "sq": lambda v: v ** 2, "twice": lambda v: 2 * v, "fabs": ca.fabs, "sign": ca.sign, "floor": ca.floor, "ceil": ca.ceil,
+          "erf": ca.erf, "erfinv": ca.erfinv, "inv": lambda v: 1 / v, "neg": lambda v: -v, "not": ca.logic_not,
+          "log1p": getattr(ca, "log1p", None), "expm1": getattr(ca, "expm1", None)}
+for name, fn in probes.items():
+    if fn is None:
+        continue
+    try:
+        e = fn(x)
+        if e.n_dep() == 1 and e.op() in by_code:
+            unary[by_code[e.op()]] = name
+    except Exception:
+        pass
+print(json.dumps({"casadi_version": ca.__version__, "mx_attributes": sorted(n for n in dir(x)),
+                  "module_functions": sorted(n for n in dir(ca) if not n.startswith("_") and callable(getattr(ca, n)) and not isinstance(getattr(ca, n), type)),
+                  "op_codes": codes, "unary_ops": unary}))
